@@ -329,6 +329,25 @@ def run_int_cfg(
                 state[stmt.target.id] = int_eval(ast.BinOp(ast.Name(stmt.target.id, ast.Load()), stmt.op, stmt.value), atoms)
             except Unevaluable:
                 state.pop(stmt.target.id, None)
+        elif (
+            isinstance(stmt, ast.Assign)
+            and len(stmt.targets) == 1
+            and isinstance(stmt.targets[0], ast.Tuple)
+            and isinstance(stmt.value, ast.Tuple)
+            and len(stmt.targets[0].elts) == len(stmt.value.elts)
+            and all(isinstance(t, ast.Name) for t in stmt.targets[0].elts)
+        ):
+            new_vals = {}
+            for tgt, val in zip(stmt.targets[0].elts, stmt.value.elts):
+                try:
+                    new_vals[tgt.id] = int_eval(val, atoms)
+                except Unevaluable:
+                    new_vals[tgt.id] = None
+            for name, val in new_vals.items():
+                if val is None:
+                    state.pop(name, None)
+                else:
+                    state[name] = val
         elif isinstance(stmt, ast.Assign) and len(stmt.targets) == 1 and isinstance(stmt.targets[0], ast.Name) and stmt.targets[0].id in state:
             try:
                 state[stmt.targets[0].id] = int_eval(stmt.value, atoms)
